@@ -245,6 +245,66 @@ def decode_mod_covers_source(chk):
     chk.floor('decode_mod cases', n, 12)
 
 
+def final_reduction_select(chk):
+    """Final reduction modulo p of the specialised field implementations: a candidate (value - p, or value + 19 for 2^255 - 19) is
+    computed into a local array, and copied back over the value in constant time if it is the reduced one.  Whether it is can only
+    be read off the *candidate* (its carry / top bits): a selector computed from the original value leaves results in [p, 2^k) in
+    place (the X25519 output p instead of 0 for low-order points, for instance).  Rule over every br_ccopy(ctl, d, t, ...) in src/ec
+    whose destination is the function's parameter and whose source is a local array: the backward slice of ctl reads that array."""
+    from .. import wmw
+    R = 'final-reduction-selects-on-candidate'
+    P = wmw.program()
+    n = 0
+    for (un, fn), F in sorted(P.static.items()):
+        if not F.file().replace(build.REPO + '/', '').startswith('src/ec/'):
+            continue
+        for c in F.calls('br_ccopy'):
+            sb, _ = F.addr_of(c['ops'][2])
+            db, _ = F.addr_of(c['ops'][1])
+            if not (sb['k'] == 'i' and F.insts[sb['v']]['op'] == 'alloca' and db['k'] == 'a'):
+                continue
+            n += 1
+            seen, st, reads_src, reads_dst = set(), [c['ops'][0]], False, False
+            while st:
+                o = st.pop()
+                if o['k'] != 'i' or o['v'] in seen:
+                    continue
+                seen.add(o['v'])
+                i = F.insts[o['v']]
+                if i['op'] == 'load':
+                    b, _ = F.addr_of(i['ops'][0])
+                    if b == sb:
+                        reads_src = True
+                    elif b == db:
+                        reads_dst = True
+                    continue
+                if i['op'] in ('alloca',):
+                    continue
+                st.extend(q for q in i['ops'] if q['k'] == 'i')
+            # values the candidate is made of: backward slices of everything stored into the local array
+            made, st = set(), []
+            for z in F.insts.values():
+                if z['op'] == 'store' and F.addr_of(z['ops'][1])[0] == sb and z['ops'][0]['k'] == 'i':
+                    st.append(z['ops'][0])
+            while st:
+                o = st.pop()
+                if o['k'] != 'i' or o['v'] in made:
+                    continue
+                i = F.insts[o['v']]
+                if i['op'] in ('load', 'alloca'):
+                    continue
+                made.add(o['v'])
+                st.extend(q for q in i['ops'] if q['k'] == 'i')
+            shares = any(F.insts[v]['op'] not in ('phi', 'load') for v in (seen & made))
+            inst = '%s: the conditional copy-back of the reduced candidate (line %s) is selected on the candidate itself' % (fn, c.get('line'))
+            if reads_src or shares:
+                chk.ok(R, inst, F.where(c))
+            else:
+                chk.violation(R, inst, F.where(c), 'the selector is computed %s: values between the modulus and the next power of two are not reduced'
+                              % ('from the original value only' if reads_dst else 'without reading the candidate'), key='%s %s' % (R, fn))
+    chk.floor('final reductions with conditional copy-back', n, 4)
+
+
 def rs_nonzero(chk):
     """FIPS 186-4 6.4.2 step 1: r and s must both lie in [1, n-1].  decode_mod enforces < n; each decoded value must
     additionally be zero-tested, and a positive test must force rejection."""
@@ -391,6 +451,7 @@ def run(tier):
     asn1_integer_sign(chk)
     zero_hash_verification(chk)
     decode_mod_covers_source(chk)
+    final_reduction_select(chk)
     rs_nonzero(chk)
     muladd_zero_test(chk)
     rfc6979_inputs(chk)
